@@ -824,9 +824,8 @@ impl CertificateParams {
 								oid::BASIC_CONSTRAINTS,
 								true,
 								|writer| {
-									writer.write_sequence(|writer| {
-										writer.next().write_bool(false); // cA flag
-									});
+									// cA is DEFAULT FALSE, which DER requires to be omitted
+									writer.write_sequence(|_writer| {});
 								},
 							);
 						},
